@@ -547,9 +547,38 @@ func (w *world) snapshot(name string) {
 			e.HarnessError("snapshot write: " + err.Error())
 			return
 		}
-		mm, err := files.NewMMFile(p, -1)
+		full := int64(len(cp))
+		var mm *files.MMFile
+		var err error
+		switch {
+		case full > 4096 && w.snaps%4 == 0:
+			// a reader that first maps only the first page, closes, and then the real reopen
+			part, perr := files.NewMMFile(p, 4096)
+			if perr != nil {
+				e.HarnessError("snapshot partial mmfile: " + perr.Error())
+				return
+			}
+			part.Close()
+			mm, err = files.NewMMFile(p, -1)
+			e.Probe("reopen_after_partial_mapping")
+		case full > 4096 && w.snaps%4 == 2:
+			// an application that opens with a smaller configured size and grows the mapping
+			mm, err = files.NewMMFile(p, 4096)
+			if err == nil {
+				err = mm.Grow(full)
+			}
+			e.Probe("reopen_small_then_grow")
+		default:
+			mm, err = files.NewMMFile(p, -1)
+		}
 		if err != nil {
 			e.HarnessError("snapshot mmfile: " + err.Error())
+			return
+		}
+		if mm.Size() != full {
+			e.Violate("C17", "reopen_size", "the file written with %d bytes is mapped with %d bytes after reopening it: bytes of the allocation state were lost", full, mm.Size())
+			mm.Close()
+			os.Remove(p)
 			return
 		}
 		rb = mm
